@@ -70,8 +70,16 @@ class Unrolled:
             s.add(z3.Or(*opts))
 
     def enabled(self, st, progress_only=False):
+        """progress_only: is a transition with a lasting effect enabled — now, or once the actors that are in the middle
+        of a polling round (ts.spin_norm: their spin transitions taken back to the state they return to) have finished
+        that round?  (A worker between its receive time-out and its flag test is not blocked.)"""
         spin = getattr(self.ts, "spin", set())
         gs = [g(st) for k, (_l, _a, g, _u) in enumerate(self.ts.trans) if not (progress_only and k in spin)]
+        norm = getattr(self.ts, "spin_norm", None)
+        if progress_only and norm is not None:
+            st2 = dict(st)
+            st2.update(norm(st))
+            gs += [g(st2) for k, (_l, _a, g, _u) in enumerate(self.ts.trans) if k not in spin]
         return z3.Or(*gs) if gs else z3.BoolVal(False)
 
     def check(self, *extra):
